@@ -828,19 +828,48 @@ func checkC07(P *Program, r *Result, tier string) {
 				if ld.Referrers() == nil {
 					continue
 				}
-				for _, ref := range *ld.Referrers() {
-					if bo, isBo := ref.(*ssa.BinOp); isBo && bo.X == ssa.Value(ld) && (bo.Op == token.LSS || bo.Op == token.GEQ) {
+				// the slot value and its sign-preserving widenings (i := int(hashtable[slot]))
+				vals := []ssa.Value{ld}
+				for qi := 0; qi < len(vals); qi++ {
+					if rs := vals[qi].Referrers(); rs != nil {
+						for _, ref := range *rs {
+							if cv, isCv := ref.(*ssa.Convert); isCv && isInteger(cv.Type()) {
+								bx, sx := intBits(cv.X.Type())
+								br, sr := intBits(cv.Type())
+								if sx && sr && br >= bx {
+									vals = append(vals, cv)
+								}
+							}
+						}
+					}
+				}
+				isVal := func(v ssa.Value) bool {
+					for _, x := range vals {
+						if x == v {
+							return true
+						}
+					}
+					return false
+				}
+				var allRefs []ssa.Instruction
+				for _, v := range vals {
+					if rs := v.Referrers(); rs != nil {
+						allRefs = append(allRefs, *rs...)
+					}
+				}
+				for _, ref := range allRefs {
+					if bo, isBo := ref.(*ssa.BinOp); isBo && isVal(bo.X) && (bo.Op == token.LSS || bo.Op == token.GEQ) {
 						if k, isC := constInt(bo.Y); isC && k == 0 {
 							// every use of the slot value as an index lies on the non-negative side
 							okNeg = true
-							for _, ref2 := range *ld.Referrers() {
-								if cv, isCv := ref2.(*ssa.Convert); isCv {
-									_ = cv
+							for _, ref2 := range allRefs {
+								if cv, isCv := ref2.(*ssa.Convert); isCv && isVal(cv) {
+									continue
 								}
 								if ph, isPhi := ref2.(*ssa.Phi); isPhi {
 									// a phi uses the value on the incoming edge: the edge's source must be guarded
 									for k, e := range ph.Edges {
-										if e == ssa.Value(ld) {
+										if isVal(e) {
 											pb := ph.Block().Preds[k]
 											if !guardedBy(pb.Instrs[len(pb.Instrs)-1], bo, bo.Op == token.GEQ) {
 												okNeg = false
@@ -849,8 +878,8 @@ func checkC07(P *Program, r *Result, tier string) {
 									}
 									continue
 								}
-								if in2, isIn := ref2.(ssa.Instruction); isIn && ref2 != ssa.Instruction(bo) {
-									if !guardedBy(in2, bo, bo.Op == token.GEQ) {
+								if ref2 != ssa.Instruction(bo) {
+									if !guardedBy(ref2, bo, bo.Op == token.GEQ) {
 										okNeg = false
 									}
 								}
